@@ -59,17 +59,19 @@ CFG_2D_GENERAL = [c for c in ALL2 if c[1][1] != 4]
 
 
 def quick_subset(cfgs):
-    """configurations verified in the quick tier (thorough: all).  Kept: every rate, equal and unequal
-    inline/crossline extents, smallest and largest extents."""
-    if len(cfgs) <= 16:
+    """configurations verified in the quick tier (thorough: all).  Kept: every rate at least once, equal and
+    unequal inline/crossline extents in both orders, z-slice and non-z-slice block depths, smallest extents."""
+    if len(cfgs) <= 12:
         return list(cfgs)
     keep = []
     seen = set()
+    rates = set()
     for c in cfgs:
         r, b = c
-        sig = (r, b[0] == b[1], b[0] < b[1], b[2] == 4, min(b) == 4)
-        if sig not in seen:
+        sig = (b[0] == b[1], b[0] < b[1], b[2] == 4, min(b) == 4, b[0] == 1)
+        if sig not in seen or r not in rates:
             seen.add(sig)
+            rates.add(r)
             keep.append(c)
     return keep
 
